@@ -59,7 +59,8 @@ class CaseUnit(Unit):
             plan, consts, pre, lem = {}, {}, [], []
             spec_print.gen_one(prog, 'C07', plan, consts, pre, lem)
             return '\n'.join(pre), plan, consts, '\n'.join(lem)
-        pre, plan, consts, lem = spec_parse.gen(prog, ctx.pid)
+        from .parse import found_err
+        pre, plan, consts, lem = spec_parse.gen(prog, ctx.pid, found_err(self, prog))
         for c in plan.values():
             c.props = list(c.props) + ['C07']
         pre_l, lem_l = [pre], [lem]
